@@ -618,6 +618,9 @@ def expand_fn(src, qual, opts, sections, tline0, notes, drop_hints=False):
         flush()
     if 'external_body' in opts:
         result.insert(0, ('#[verifier::external_body]', {'o': 'i', 'tline': tline0, 'label': None}))
+    if 'nodecreases' in opts:
+        # termination of this function's loops is NOT checked (listed in the trusted base: the attribute is scanned for)
+        result.insert(0, ('#[verifier::exec_allows_no_decreases_clause]', {'o': 'i', 'tline': tline0, 'label': None}))
     return result, (src.rel, base_line, line_of(src.text, start + len(raw) - 1))
 
 
